@@ -1,6 +1,127 @@
-(** Entry points for C17 (stub: replaced by the property's own entry file). *)
-From Coq Require Import ZArith List.
-From GV Require Import Base.Val.
+(** Entry points for C17 (tree command: linkage -> dendrogram, UPGMA run validator).
+
+    Wire shapes: a row is [(left right height size)]; a tree is an int (leaf index) or
+    [(left bl right br)]; heights are integers (exact instance, common scale) or binary64 bit
+    patterns (ops 3); strings are lists of code points; results [(0 payload)] / [(1 code)] with code 1 = IndexError,
+    2 = AssertionError. *)
+From Coq Require Import ZArith List Bool.
+From GV Require Import Base.Val Base.F32 Model.C17 Model.C17Labels.
+Import ListNotations.
 Open Scope Z_scope.
 
-Definition dispatch (op : Z) (a : val) : val := vbad.
+Definition to_zrow (v : val) : option zrow :=
+  match v with
+  | VL [VI l; VI r; VI h; VI s] =>
+      if (0 <=? l) && (0 <=? r) && (0 <=? s) then Some (mkrow (Z.to_nat l) (Z.to_nat r) h (Z.to_nat s))
+      else None
+  | _ => None
+  end.
+
+Definition to_frow (v : val) : option frow :=
+  match v with
+  | VL [VI l; VI r; VI h; VI s] =>
+      if (0 <=? l) && (0 <=? r) && (0 <=? s)
+      then Some (mkrow (Z.to_nat l) (Z.to_nat r) (f64_of_bits h) (Z.to_nat s))
+      else None
+  | _ => None
+  end.
+
+Fixpoint all_some {A} (l : list (option A)) : option (list A) :=
+  match l with
+  | [] => Some []
+  | None :: _ => None
+  | Some a :: t => match all_some t with Some t' => Some (a :: t') | None => None end
+  end.
+
+Definition to_zrows (v : val) : option (list zrow) := all_some (map to_zrow (to_list v)).
+Definition to_frows (v : val) : option (list frow) := all_some (map to_frow (to_list v)).
+
+Fixpoint vtree {H} (f : H -> val) (t : tree H) : val :=
+  match t with
+  | Leaf i => vnat i
+  | Node l bl r br => VL [vtree f l; f bl; vtree f r; f br]
+  end.
+
+Definition terr_code (e : terr) : Z :=
+  match e with IndexError => 1 | AssertionError => 2 end.
+Definition vtres {A} (f : A -> val) (r : tres A) : val :=
+  match r with TOk a => vok (f a) | TErr e => verr (terr_code e) end.
+
+Definition vf64b (x : f64) : val := VI (f64_bits x).
+
+Definition pairs_matrix (n : nat) (f : nat -> nat -> val) : val :=
+  VL (map (fun i => VL (map (fun j => f i j) (seq 0 n))) (seq 0 n)).
+
+Definition dispatch (op : Z) (a : val) : val :=
+  match op with
+  (* 1: (n rows) -> valid_linkage *)
+  | 1 => match a with
+         | VL [VI n; rows] =>
+             match to_zrows rows with Some rs => vbool (valid_linkage (Z.to_nat n) rs) | None => vbad end
+         | _ => vbad end
+  (* 2: (nlabels rows) -> exact tree *)
+  | 2 => match a with
+         | VL [VI n; rows] =>
+             match to_zrows rows with
+             | Some rs => vtres (vtree VI) (zlinkage_to_tree (Z.to_nat n) rs)
+             | None => vbad end
+         | _ => vbad end
+  (* 3: (nlabels rows-with-height-bits) -> binary64 tree, branch lengths as bit patterns *)
+  | 3 => match a with
+         | VL [VI n; rows] =>
+             match to_frows rows with
+             | Some rs => vtres (vtree vf64b) (flinkage_to_tree (Z.to_nat n) rs)
+             | None => vbad end
+         | _ => vbad end
+  (* 4: (n rows) -> matrix of merge heights (options) *)
+  | 4 => match a with
+         | VL [VI n; rows] =>
+             match to_zrows rows with
+             | Some rs => let n := Z.to_nat n in
+                          pairs_matrix n (fun i j => vopt VI (merge_height n rs i j))
+             | None => vbad end
+         | _ => vbad end
+  (* 5: (n rows) -> (heights_monotone nondecreasing) *)
+  | 5 => match a with
+         | VL [VI n; rows] =>
+             match to_zrows rows with
+             | Some rs => VL [vbool (heights_monotone (Z.to_nat n) rs); vbool (nondecreasing rs)]
+             | None => vbad end
+         | _ => vbad end
+  (* 6: (n dmat eps rows) -> valid_upgma_run *)
+  | 6 => match a with
+         | VL [VI n; dmat; VI eps; rows] =>
+             match to_zrows rows with
+             | Some rs => vbool (valid_upgma_run (Z.to_nat n) (map to_Zs (to_list dmat)) eps rs)
+             | None => vbad end
+         | _ => vbad end
+  (* 7: (n rows) -> measurements of the exact tree: (leaves depths paths branches internal) *)
+  | 7 => match a with
+         | VL [VI n; rows] =>
+             match to_zrows rows with
+             | Some rs =>
+                 let n := Z.to_nat n in
+                 vtres (fun t => VL [vlist vnat (leaves t);
+                                     vlist (fun i => vopt VI (depth t i)) (seq 0 n);
+                                     pairs_matrix n (fun i j => vopt VI (path t i j));
+                                     vlist VI (branches t);
+                                     vnat (internal_nodes t)])
+                       (zlinkage_to_tree n rs)
+             | None => vbad end
+         | _ => vbad end
+  (* 8: (n rows) -> table of clusters *)
+  | 8 => match a with
+         | VL [VI n; rows] =>
+             match to_zrows rows with
+             | Some rs => vlist (vlist vnat) (tab_after rs (tab0 (Z.to_nat n)))
+             | None => vbad end
+         | _ => vbad end
+  (* 9: write_label: (0 codepoints) = str, (1 z) = integer -> option text *)
+  | 9 => match a with
+         | VL [VI 0; s] => vopt (vlist VI) (write_label (IdStr (to_Zs s)))
+         | VL [VI 1; VI z] => vopt (vlist VI) (write_label (IdInt z))
+         | _ => vbad end
+  (* 10: read_label: text -> option (label rest) *)
+  | 10 => vopt (fun p => VL [vlist VI (fst p); vlist VI (snd p)]) (read_label (to_Zs a))
+  | _ => vbad
+  end.
